@@ -482,6 +482,8 @@ class CopyOracle(Oracle):
         new = info["new"]
         src_root = src_model.recs[info["src"]]
         dst_root = new[info["dst"]]
+        # between files of different format versions a drillhole group and its content change storage class (plain <-> concatenated)
+        self._xver = world.version(info["h"]) != world.version(info["dh"])
         self.match(src_model, info["src"], new, info["dst"], info, top=True)
         # the source is unchanged (LIVE) -- compare with the model, which the copy did not touch
         root = world.ent(info["h"], info["src"], fresh=True)
@@ -493,11 +495,20 @@ class CopyOracle(Oracle):
             raise Violation("C12", "source_disturbed", diffs[0], {"field": _field(diffs[0]), "cls": src_root["cls"]})
 
     SIG_FIELDS = ("kind", "cls", "type_uid", "name", "flags", "values", "primitive", "metadata")
+    _xver = False
+
+    def _cls(self, name):
+        if self._xver and name:
+            for prefix in ("Concatenator", "Concatenated"):
+                if name.startswith(prefix):
+                    return name[len(prefix):]
+        return name
 
     def sig(self, recs, uid, with_children=True):
         """Identifier-free signature of a record (and, recursively, of its subtree and property groups)."""
         rec = recs[uid]
         body = {f: rec.get(f) for f in self.SIG_FIELDS if not (f == "type_uid" and rec["kind"] == "data")}
+        body["cls"] = self._cls(body["cls"])
         body["metadata"] = body["metadata"] or None
         body["attrs"] = {k: (compare.flat(v) if isinstance(v, list) else v) for k, v in rec.get("attrs", {}).items() if k not in self.IGNORE_ATTRS}
         body["arrays"] = {k: compare.flat(v) if k != "options" else (v or {}) for k, v in rec.get("arrays", {}).items()}
@@ -514,6 +525,8 @@ class CopyOracle(Oracle):
         if top and info.get("masked_values") is not None:
             s = {**s, "values": info["masked_values"]}      # a masked data copy: kept values, no-data elsewhere
         cls = s["cls"]
+        if getattr(self, "_xver", False):
+            s, d = {**s, "cls": self._cls(s["cls"])}, {**d, "cls": self._cls(d["cls"])}
         # (a copied data set may get a data type of its own -- the drillhole-group copy path does that; the property asks for equal
         #  class, attributes and values, which for a data set means the same primitive type, not the same type node)
         fields = tuple(f for f in self.SIG_FIELDS if not (f == "type_uid" and s["kind"] == "data"))
